@@ -45,6 +45,7 @@ CHECKS["C16"] = {
         {"name": "field", "pkg": "sm2/internal/fiat", "run": "TestVX_C16", "public_files": ["sm2/internal/fiat/C16_pub_test.go"],
          "shards": {"quick": 8, "thorough": 16}},
         {"name": "chain", "pkg": "sm2/internal/fiat", "run": "TestVX_C16_Chain", "public_files": ["sm2/internal/fiat/C16_pub_test.go"]},
+        {"name": "multiselect", "pkg": "sm2/internal/fiat", "run": "TestVX_C16_MultiSelect", "public_files": ["sm2/internal/fiat/C16_pub_test.go"]},
     ],
     "deadline": {"quick": 120, "thorough": 1500},
 }
@@ -232,10 +233,12 @@ CHECKS["C17"] = {
                     "reads of statically frozen package-level variables get no scheduling point (they commute with everything); a frozen variable that changes anyway is reported",
                     "sequential consistency: weak-memory reorderings are not modelled", "preemption bound 2 (quick) / 3 (thorough), 2-3 threads, 1-2 operations each"],
     "prepare": {"sched": [["bash", "{verif}/tools/prep_sched.sh", "{repo}"]],
-                "schedarm": [["python3", "{verif}/tools/prep_armglue.py", "{repo}"], ["bash", "{verif}/tools/prep_sched.sh", "{repo}"]]},
+                "schedarm": [["python3", "{verif}/tools/prep_armglue.py", "{repo}"], ["bash", "{verif}/tools/prep_sched.sh", "{repo}"]],
+                "schedgen": [["python3", "{verif}/tools/prep_generic.py", "{repo}"], ["bash", "{verif}/tools/prep_sched.sh", "{repo}"]]},
     "parts": [
         {"name": "sched-sm4", "variant": "sched", "pkg": "sm4", "run": "TestVX_C17_SM4", "public_files": C17F, "shards": 6, "env": {"VX_PART": "sched-sm4"}},
         {"name": "sched-sm4-armglue", "variant": "schedarm", "pkg": "sm4", "run": "TestVX_C17_SM4", "public_files": C17F, "shards": 6, "env": {"VX_PART": "sched-sm4-armglue"}},
+        {"name": "sched-sm4-generic", "variant": "schedgen", "pkg": "sm4", "run": "TestVX_C17_SM4", "public_files": C17F, "shards": 6, "env": {"VX_PART": "sched-sm4-generic"}},
         {"name": "sched-sm2", "variant": "sched", "pkg": "sm2", "run": "TestVX_C17_SM2", "public_files": SM2P + ["sm2/C17_pub_test.go"], "shards": 2},
         {"name": "race-sm4", "variant": "sched", "race": True, "pkg": "sm4", "run": "TestVX_C17_SM4_Race", "public_files": C17F, "gomaxprocs": 16},
         {"name": "race-sm2", "variant": "sched", "race": True, "pkg": "sm2", "run": "TestVX_C17_SM2_Race", "public_files": SM2P + ["sm2/C17_pub_test.go"], "gomaxprocs": 16},
